@@ -499,7 +499,7 @@ def dep_and_output_case(pr):
     pr.clear_log()
     r = pr.run("cons")
     if "s cons" not in pr.log() or (pr.read("final.txt") or "").strip() != "p2-longer":
-        return {"property": "C13", "expected": "prod listed under dependencies and as prod.output: its changed output re-runs cons", "observed": "log %s final.txt=%r" % (pr.log(), pr.read("final.txt")), "zinoma": r.brief()}
+        return {"property": ["C13", "C02"], "expected": "prod listed under dependencies and as prod.output: its changed output re-runs cons", "observed": "log %s final.txt=%r" % (pr.log(), pr.read("final.txt")), "zinoma": r.brief()}
     return None
 
 
@@ -756,6 +756,125 @@ def xoutput_dotdot_case(pr):
     return None
 
 
+def dep_without_input_case(pr):
+    """a target with inputs depending (directly and through an aggregate, also across projects) on a target without
+    input, which is executed by every invocation: the dependent itself is skipped when its own resources are unchanged"""
+    pr.write("src/a.txt", "a")
+    pr.write("lib/zinoma.yml", yml({"stamp": _t(None, None, name="stamp")}, name="lib"))
+    ts = {"setup": _t(None, None, name="setup"), "g": {"dependencies": ["setup", "lib::stamp"]}, "compile": _t([{"paths": ["src"]}], None, name="compile", deps=["g"])}
+    pr.write("zinoma.yml", yml(ts, name="root", imports={"lib": "lib"}))
+    _run_ok(pr, "compile")
+    for i in range(3):
+        pr.clear_log()
+        r = _run_ok(pr, "compile")
+        log = pr.log()
+        if "s setup" not in log or "s stamp" not in log:
+            return {"property": "C03", "expected": "setup and lib::stamp declare no input: executed by every invocation", "observed": "log %s" % log, "zinoma": r.brief()}
+        if "s compile" in log:
+            return {"property": "C03", "expected": "compile's own resources did not change: skipped (that its input-less dependencies ran again is no change of compile's resources)", "observed": "log %s" % log, "zinoma": r.brief()}
+    return None
+
+
+def big_cmd_output_case(pr):
+    """a cmd_stdout resource printing 300 kB"""
+    big = "yes zinoma-line | head -c 300000"
+    pr.write("zinoma.yml", yml({"listing": _t([{"cmd_stdout": big}], [{"cmd_stdout": big}], name="listing"), "top": _t(["listing.output"], None, name="top")}))
+    r = pr.run("top", timeout=30)
+    if r.timed_out or r.rc != 0 or "e top" not in pr.log():
+        return {"property": "C04", "expected": "a cmd_stdout resource printing 300 kB: the run terminates with exit 0 and top is built", "observed": "exit %s timed out %s log %s" % (r.rc, r.timed_out, pr.log()), "zinoma": r.brief()}
+    pr.clear_log()
+    r = pr.run("top", timeout=30)
+    if r.timed_out or r.rc != 0 or pr.log():
+        return {"property": ["C03", "C04"], "expected": "second run: the command prints the same 300 kB: everything skipped, exit 0", "observed": "exit %s timed out %s log %s" % (r.rc, r.timed_out, pr.log()), "zinoma": r.brief()}
+    return None
+
+
+def config_edit_between_runs_case(pr):
+    """the project file itself changes between invocations: an input is removed (and the build fails or zinoma is
+    killed), then restored: the failed / interrupted build is not remembered as done"""
+    pr.write("src/a.txt", "a1")
+    with_input = yml({"gen": _t([{"paths": ["src"]}], [{"paths": ["out.txt"]}], name="gen", body="if [ -f bad ]; then exit 5; fi\ncat src/a.txt > out.txt")})
+    without_input = yml({"gen": _t(None, [{"paths": ["out.txt"]}], name="gen", body="if [ -f bad ]; then exit 5; fi\ncat src/a.txt > out.txt")})
+    pr.write("zinoma.yml", with_input)
+    _run_ok(pr, "gen")
+    pr.write("zinoma.yml", without_input, record=False)
+    pr.commands.append("remove `input:` from gen in zinoma.yml")
+    pr.write("bad", "", record=False)
+    r = pr.run("gen")
+    if r.rc == 0:
+        return {"property": "C07", "expected": "the failing script makes the run fail", "observed": "exit 0", "zinoma": r.brief()}
+    os.remove(pr.path("bad"))
+    pr.write("zinoma.yml", with_input, record=False)
+    pr.commands.append("restore `input:` of gen in zinoma.yml")
+    pr.clear_log()
+    r = pr.run("gen")
+    if "s gen" not in pr.log():
+        return {"property": "C05", "expected": "gen's last build failed (while it declared no input): with the input declaration restored the next invocation runs the script, it does not trust the record of the build before", "observed": "skipped", "zinoma": r.brief()}
+    return None
+
+
+def formatter_case(pr):
+    """a target that rewrites files of its own input directory (formatter): within one invocation it runs once, dependents
+    run once"""
+    pr.write("src/b.txt", "zeta\nalpha\n")
+    fmt = _t([{"paths": ["src"]}], None, name="fmt", body="sleep 0.3; for f in src/*.txt; do sort -o $f $f; done")
+    lib = _t([{"paths": ["src"]}], None, name="lib", deps=["fmt"])
+    doc = _t(None, None, name="doc", deps=["fmt"])
+    pr.write("zinoma.yml", yml({"fmt": fmt, "lib": lib, "doc": doc}))
+    r = _run_ok(pr, "lib", "doc", "fmt")
+    for t in ("fmt", "lib", "doc"):
+        n = pr.count("s " + t)
+        if n != 1:
+            return {"property": "C08", "expected": "one one-shot invocation executes %s exactly once (fmt rewrites files of its own input directory)" % t, "observed": "%d starts; log %s" % (n, pr.log()), "zinoma": r.brief()}
+    return None
+
+
+def producer_resolved_elsewhere_case(fail):
+    """all -> [lint, package]; lint -> gen; package has only `input: [gen.output]`: gen is resolved through lint first"""
+    def fn(pr):
+        gen = _t(None, [{"paths": ["gen.txt"]}], name="gen", body="sleep 0.5; echo g > gen.txt" + ("; exit 1" if fail else ""))
+        lint = _t(None, None, name="lint", deps=["gen"])
+        package = _t(["gen.output"], None, name="package")
+        pr.write("zinoma.yml", yml({"all": {"dependencies": ["lint", "package"]}, "gen": gen, "lint": lint, "package": package}))
+        for roots in (["all"], ["lint", "package"]):
+            pr.clear_log()
+            pr.remove(".zinoma")
+            r = pr.run(*roots, timeout=30)
+            log = pr.log()
+            if fail:
+                if "s package" in log:
+                    return {"property": ["C07", "C01", "C13"], "expected": "`zinoma %s`: package takes gen.output as input, gen fails: package never starts" % " ".join(roots), "observed": "log %s" % log, "zinoma": r.brief()}
+            else:
+                if r.rc != 0 or "s package" not in log or "e gen" not in log or log.index("e gen") > log.index("s package"):
+                    return {"property": ["C01", "C13"], "expected": "`zinoma %s`: package takes gen.output as input: it starts after gen finished (gen was reached through lint first)" % " ".join(roots), "observed": "exit %s log %s" % (r.rc, log), "zinoma": r.brief()}
+        return None
+    return fn
+
+
+def shared_cmd_inflight_case(pr):
+    """two targets declare the same slow command; one of them depends on a target that changes what it prints: each
+    decides on what the command prints when *it* looks, whatever else is requested in the same invocation"""
+    pr.write("asrc/a.txt", "one")
+    pr.write("gen.txt", "zero")
+    cmd = "cat gen.txt; sleep 1.2"
+    a = _t([{"paths": ["asrc"]}], [{"paths": ["gen.txt"]}], name="A", body="sleep 0.4; cat asrc/a.txt > gen.txt")
+    audit = _t([{"cmd_stdout": cmd}], None, name="audit")
+    report = _t([{"cmd_stdout": cmd}], None, name="report", deps=["A"])
+    pr.write("zinoma.yml", yml({"A": a, "audit": audit, "report": report}))
+    _run_ok(pr, "audit", "report")
+    _run_ok(pr, "audit", "report")
+    pr.clear_log()
+    _run_ok(pr, "audit", "report")
+    if pr.log():
+        return {"property": "C03", "expected": "untouched tree, third invocation: nothing runs", "observed": "log %s" % pr.log()}
+    pr.edit("asrc/a.txt", "two-longer")
+    pr.clear_log()
+    r = _run_ok(pr, "audit", "report")
+    if "s report" not in pr.log():
+        return {"property": ["C18", "C02"], "expected": "A was rebuilt and changed what `cat gen.txt` prints; report (which depends on A and declares that command) runs - also when audit, which declares the same command, is requested in the same invocation", "observed": "log %s" % pr.log(), "zinoma": r.brief()}
+    return None
+
+
 def cases(seed, tier="quick"):
     C = lambda n, fn, what: Case("incr", n, fn, what)
     out = [
@@ -779,6 +898,13 @@ def cases(seed, tier="quick"):
         C("workdir-inside", skip_then("edit src/.zinoma/x", lambda p: p.edit("src/.zinoma/x", "2-longer"), False, "C15", extra={"src/.zinoma/x": "1"}, why=" (inside a directory named .zinoma)"), ".zinoma directory below the listed path is pruned"),
         C("corrupt-each-byte", corrupt_each_byte_case, "every single-byte corruption of the record + a changed output"),
         C("cmd-input", cmd_input_case, "cmd_stdout input of the target itself"),
+        C("shared-cmd-inflight", shared_cmd_inflight_case, "the same slow command declared by two targets"),
+        C("dep-without-input", dep_without_input_case, "dependent of an always-executed target"),
+        C("big-cmd-output", big_cmd_output_case, "a command printing 300 kB"),
+        C("config-edit-between-runs", config_edit_between_runs_case, "input removed and restored in the project file around a failed build"),
+        C("formatter", formatter_case, "a target rewriting its own inputs"),
+        C("producer-resolved-elsewhere", producer_resolved_elsewhere_case(False), "X.output of a producer first reached through another branch"),
+        C("producer-resolved-elsewhere-fails", producer_resolved_elsewhere_case(True), "the same, the producer fails"),
         C("shared-cmd", shared_cmd_case, "a command output changed by a build of the same run, shared by three targets"),
         C("other-target-sets", other_target_sets_case, "invocations with other target sets leave records alone"),
         C("xoutput-filtered", xoutput_filtered_case, "X.output with an extension filter"),
